@@ -1,6 +1,6 @@
 import sys, json, time, faulthandler
 faulthandler.dump_traceback_later(int(sys.argv[3]) if len(sys.argv)>3 else 60, exit=True)
-sys.path.insert(0, "/verif"); sys.path.insert(0, "/repo"); sys.path.insert(0, "/verif/harness")
+import os; sys.path.insert(0, "/verif"); sys.path.insert(0, os.environ.get("PSX_REPO", "/repo")); sys.path.insert(0, "/verif/harness")
 from psx import runner
 import importlib
 mod = importlib.import_module(sys.argv[1])
